@@ -398,7 +398,18 @@ fn parse_file(src: &str) -> Result<Vec<PItem>, String> {
                     _ => {}
                 }
             }
-            let text = toks[start..i].iter().filter(|t| !is_comment(t) || is_doc(t)).map(|t| t.text.trim().to_string()).collect::<Vec<_>>().join(" ");
+            // (a trailing comma before `}` is layout: the item may be re-wrapped)
+            let kept: Vec<&LTok> = toks[start..i].iter().filter(|t| !is_comment(t) || is_doc(t)).collect();
+            // (and `c as c` is `c`: `from_ast` drops the alias)
+            let same_alias = |k: usize| k >= 2 && kept[k - 1].text == "as" && unraw(&kept[k].text) == unraw(&kept[k - 2].text);
+            let text = kept
+                .iter()
+                .enumerate()
+                .filter(|(k, t)| !(t.text == "," && kept.get(k + 1).map(|n| n.text == "}").unwrap_or(false)))
+                .filter(|(k, _)| !same_alias(*k) && !(k + 1 < kept.len() && same_alias(k + 1)))
+                .map(|(_, t)| t.text.trim().to_string())
+                .collect::<Vec<_>>()
+                .join(" ");
             items.push(PItem::Other(text));
         }
     }
@@ -1739,6 +1750,11 @@ fn judge(o: &mut Outcome, progs: &[(String, &Analysed)], meta: &[(usize, HCfg)],
         for u in a.segs.iter().flatten().filter(|u| !u.comments.is_empty()) {
             let lin = &ans[q];
             q += 1;
+            if lin == "_" {
+                // a declaration that imports nothing (`use a::{};`) is removed; where its comment goes is C03's subject
+                o.count(&format!("{}:commented declaration without imports", fam));
+                continue;
+            }
             for tag in tags(u) {
                 let holders: Vec<&PUse> = out.segs.iter().flatten().filter(|x| tags(x).contains(&tag)).collect();
                 if holders.len() != 1 {
